@@ -17,6 +17,20 @@ def gen(parent):
                    len(chain) > 1 or parent[S] >= 0)
 
 
+def gen_restart(parent):
+    """start at S1 (with one event that may move the chart), then start the same chart object again at S2"""
+    n = len(parent)
+    for S1 in range(n):
+        for S2 in range(n):
+            for chain in F.chains(parent, S2):
+                init = {chain[i]: chain[i + 1] for i in range(len(chain) - 1)}
+                if S1 in init:
+                    continue        # keep the first start simple: the restart is what is enumerated
+                for ev_ in ([], ["A"]):
+                    react = {(S1, "A"): ("T", chain[-1])} if ev_ else {}
+                    yield ({"parent": parent, "init": init, "react": react, "start": S1, "events": ev_, "restart": S2}, True)
+
+
 def run(tier):
     res = Result(PID)
     N, nh, maxd = (9, 7, 14) if tier == "quick" else (10, 8, 16)
@@ -27,10 +41,12 @@ def run(tier):
     spine_f = [f for d in range(9, maxd + 1) for f in F.spines(d, 1)]
     sweep(res, [(gen, allf, VARIANTS_ALL[:1], [None]),
                 (gen, small, VARIANTS_ALL[1:], [None, mixed_style]),
-                (gen, spine_f, VARIANTS_ALL[:2], [None])])
+                (gen, spine_f, VARIANTS_ALL[:2], [None]),
+                (gen_restart, [f for f in allf if len(f) <= (5 if tier == "quick" else 6)], VARIANTS_ALL, [None])])
     res.coverage.update({
         "rule": "every (forest shape<=%d states, start state, init chain below it) x hosts; non-trivial = nested "
-                "start state or non-empty init chain; spine charts depth 9..%d" % (N, maxd),
+                "start state or non-empty init chain; spine charts depth 9..%d; plus restarts of the same chart object (start at S1, "
+                "optionally one transition, start again at S2 with every init chain) on forests<=5/6, all hosts" % (N, maxd),
         "bounds": {"forest_states_plain_host": N, "forest_states_other_hosts": nh, "spine_depth": maxd},
         "exhaustive": True})
     res.assumptions = ["reference model of 3.3 trusted"]
